@@ -163,7 +163,29 @@ def generic_program(d):
     return PRELUDE + SAME + (tmpl % (true_w if d["twin"] else false_w)) + "\nfn main() {}\n"
 
 
+IMPLS = {
+    "Default": "impl core::default::Default for E { fn default() -> E { E } }",
+    "Debug": "impl core::fmt::Debug for E { fn fmt(&self, f: &mut core::fmt::Formatter) -> core::fmt::Result { f.write_str(\"E\") } }",
+    "PartialEq": "impl core::cmp::PartialEq for E { fn eq(&self, _o: &E) -> bool { true } }",
+    "Eq": "impl core::cmp::Eq for E {}",
+    "PartialOrd": "impl core::cmp::PartialOrd for E { fn partial_cmp(&self, _o: &E) -> Option<core::cmp::Ordering> { None } }",
+    "Ord": "impl core::cmp::Ord for E { fn cmp(&self, _o: &E) -> core::cmp::Ordering { core::cmp::Ordering::Equal } }",
+    "Hash": "impl core::hash::Hash for E { fn hash<H: core::hash::Hasher>(&self, _h: &mut H) {} }",
+}
+SUPER = {"Default": [], "Debug": [], "PartialEq": [], "Eq": ["PartialEq"], "PartialOrd": ["PartialEq"], "Ord": ["PartialEq", "Eq", "PartialOrd"], "Hash": []}
+PATH = {"Default": "core::default::Default", "Debug": "core::fmt::Debug", "PartialEq": "core::cmp::PartialEq", "Eq": "core::cmp::Eq", "PartialOrd": "core::cmp::PartialOrd", "Ord": "core::cmp::Ord", "Hash": "core::hash::Hash"}
+
+
+def bound_program(d):
+    tr = d["tr"]
+    cont = "GenericArray" if d["cont"] == "array" else "GenericArrayIter"
+    impls = "\n".join(IMPLS[x] for x in SUPER[tr] + [tr]) if d["twin"] else ""
+    return PRELUDE + "struct E;\n%s\nfn need<X: %s>() {}\nfn main() {\n    need::<%s<E, U3>>();\n}\n" % (impls, PATH[tr], cont)
+
+
 def program(d):
+    if d["kind"] == "bound":
+        return bound_program(d)
     if d["kind"] == "generic":
         return generic_program(d)
     if d["kind"] == "len":
